@@ -876,9 +876,21 @@ func main() {
 			Kind string    `json:"kind"`
 			Case trieCase  `json:"case"`
 			SC   stateCase `json:"state_case"`
+			BA   baCase    `json:"ba_case"`
 		}
 		c.LoadReplay(&rp)
-		if rp.Kind == "trie" {
+		if rp.Kind == "bitarray" {
+			if rp.BA.Line == "roundtrip" {
+				rr := hx.NewRNG(c.Seed).Fork(0xBA).Fork(9_000_000)
+				for i := 0; i < 600; i++ {
+					if class, what := nodeRoundtripReal(rr); class != "" {
+						c.Violation(class, what, map[string]any{"kind": "bitarray", "ba_case": rp.BA}, false)
+					}
+				}
+			} else if class, what := evalBA(or, rp.BA); class != "" {
+				c.Violation(class, what, map[string]any{"kind": "bitarray", "ba_case": rp.BA}, false)
+			}
+		} else if rp.Kind == "trie" {
 			if v, _ := evalTrieCase(or, rp.Case); v != nil {
 				reportTrie(rp.Case, v)
 			}
@@ -890,6 +902,10 @@ func main() {
 	}
 
 	r := hx.NewRNG(c.Seed)
+	// stage "bitarray": the real BitArray word operations and the node codec against BitArray.v
+	tBA := time.Now()
+	runBitArrayStage(c, or, r.Fork(0xBA))
+	c.Extra["bitarray_stage_wall_s"] = time.Since(tBA).Seconds()
 	ntrie, nstate := 400, 120
 	if c.Thorough() {
 		ntrie, nstate = 8000, 1500
@@ -955,7 +971,8 @@ func main() {
 	}
 	c.Hist["trie1_stored_nodes_compared"] = trie1NodesCompared
 	c.Hist["trie1_roots_compared"] = trie1RootsCompared
-	c.Finish("trie op sequences (heights 3/8/64/251, Pedersen+Poseidon, keys sharing long prefixes, ~30% zero writes, legacy trie committed+reopened at random points) " +
+	c.Finish("stage bitarray: every exported operation of the real trie.BitArray and trieutils.BitArray (random + boundary lengths 0,1,63,64,65,127,128,129,191,192,193,250,251,252,255; all-ones / all-zero / single-bit / whole-word patterns; arrays sharing prefixes; arrays with bits above len), BitArray.Write/UnmarshalBinary and Node.WriteTo/UnmarshalBinary (well-formed, irregular, cut, extended, bit-flipped, non-canonical wire bytes; receivers with stale hashes) compared as (len, words) / bytes with the extracted word-level model BitArray.v; " +
+		"trie op sequences (heights 3/8/64/251, Pedersen+Poseidon, keys sharing long prefixes, ~30% zero writes, legacy trie committed+reopened at random points) " +
 		"checked on trie2 (in memory, and persistent over the raw trie database with Update/Delete, commit through collector+tracer, reopen, Get of every key), legacy trie and both temp-trie backends against the model's per-op root terms and the spec root; the legacy trie additionally against its own transcription Trie1 (Hash() after a random subset of the Puts: root, root key, the set of stored node keys with child links read from the database, every stored value; Trie1 root TERM == Trie2 root TERM); state diff chains (deploy/replace/nonce/storage incl. zero writes, wipes and >100-slot bulk writes/Sierra declarations/CASM-hash migrations incl. migration-only blocks/system contracts 0x1,0x2) on both state backends with restarts, " +
 		"<0.14.0 and >=0.14.0 formulas; non-trivial = at least 3 trie ops or any state chain; distinct by full case")
 }
